@@ -1,5 +1,6 @@
 import CodeLimit.Lemmas.NoclFold
 import CodeLimit.Gen.Languages
+import CodeLimit.Lemmas.ExceptDec
 /-!
 # Concrete inputs for the non-vacuity examples of C17
 
@@ -10,15 +11,6 @@ import CodeLimit.Gen.Languages
 set_option linter.unusedSimpArgs false
 
 namespace CL
-
-instance {ε α : Type} [DecidableEq ε] [DecidableEq α] : DecidableEq (Except ε α) := fun a b =>
-  match a, b with
-  | .ok x, .ok y =>
-    if h : x = y then isTrue (by rw [h]) else isFalse (fun h' => h (by cases h'; rfl))
-  | .error x, .error y =>
-    if h : x = y then isTrue (by rw [h]) else isFalse (fun h' => h (by cases h'; rfl))
-  | .ok _, .error _ => isFalse (fun h => by cases h)
-  | .error _, .ok _ => isFalse (fun h => by cases h)
 
 theorem sortAsc_of {γ : Type} {toks : List Tok} {start : γ → Nat} {xs : List γ}
     {ks ks' : List ((Nat × Nat) × γ)} (hk : withKeys toks start xs = .ok ks)
